@@ -1,5 +1,5 @@
 (** Proofs about Model/CacheStore.v (property C11). *)
-From Verif Require Import Base.Prelude Gen.Constants Gen.LockFacts Model.CacheStore.
+From Verif Require Import Base.Prelude Gen.Constants Model.CacheStore.
 From Coq Require Import ZifyN ZifyNat ZifyBool.
 From Coq Require FinFun.
 Open Scope N_scope.
@@ -1185,5 +1185,9 @@ Proof.
   - apply (K t2 r2 t1 r1); auto. apply orb_true_iff in Ca as [Ca|Ca]; auto.
 Qed.
 
-Lemma lock_table_ok : check_locks LockFacts.table = true.
-Proof. vm_compute. reflexivity. Qed.
+(** The check of the regenerated table is done where it is used (Properties/C11.v), by
+    computation: [lock_table_ok_by eq_refl] type-checks iff [check_locks table] computes to
+    [true]. Keeping the computation out of this file means a source change that breaks the
+    lock discipline breaks exactly that one theorem and nothing else here. *)
+Lemma lock_table_ok_by (tbl : list lock_row) (H : check_locks tbl = true) : check_locks tbl = true.
+Proof. exact H. Qed.
